@@ -94,10 +94,11 @@ func (fr *Frame) allocBound(reach, n string, pos token.Pos) {
 	for r.parent != nil {
 		r = r.parent
 	}
-	if r.contract == nil || r.contract.AllocBound == 0 {
+	if r.contract == nil || fr.vc.allocTerm == "" {
 		return
 	}
-	fr.safe("alloc", reach, app("bvule", n, bvConst(uint64(r.contract.AllocBound), 64)), pos)
+	// anything a 16-bit length field can announce (<= 65535 elements) is always allowed
+	fr.safe("alloc", reach, sOr(app("bvule", n, bvConst(65535, 64)), app("bvule", n, fr.vc.allocTerm)), pos)
 }
 
 func (fr *Frame) slice(b *ssa.BasicBlock, x *ssa.Slice, st *State, reach string) {
@@ -138,7 +139,16 @@ func (fr *Frame) slice(b *ssa.BasicBlock, x *ssa.Slice, st *State, reach string)
 		hi := opt(x.High, n)
 		mx := opt(x.Max, n)
 		fr.safe("slice", reach, fmt.Sprintf("(and (bvule %s %s) (bvule %s %s) (bvule %s %s))", lo, hi, hi, mx, mx, n), x.Pos())
-		fr.bind(x, Val{S: fmt.Sprintf("(g_mkslice %s %s (bvsub %s %s) (bvsub %s %s))", l.Ref, lo, hi, lo, mx, lo)})
+		lenT, capT := app("bvsub", hi, lo), app("bvsub", mx, lo)
+		kl, okl := constLen(lo)
+		kh, okh := constLen(hi)
+		if okl && okh && kh >= kl {
+			lenT = bvConst(uint64(kh-kl), 64)
+		}
+		fr.bind(x, Val{S: fmt.Sprintf("(g_mkslice %s %s %s %s)", l.Ref, lo, lenT, capT)})
+		if okl && okh && kh >= kl {
+			vc.knownLen[fr.vals[x].S] = kh - kl
+		}
 	default:
 		panic(unsupported("Slice on " + x.X.Type().String()))
 	}
